@@ -1,19 +1,20 @@
 #!/usr/bin/env python3
-"""mutest.py <Cxx> <file-in-repo> <old> <new> : apply a textual mutation to /repo, run the quick check, revert."""
-import subprocess, sys, json
-pid, f, old, new = sys.argv[1:5]
-p = "/repo/" + f
-s = open(p).read()
-assert s.count(old) >= 1, "pattern not found"
-open(p, "w").write(s.replace(old, new, 1))
-try:
-    r = subprocess.run(["/verif/check", pid, "quick"], stdout=subprocess.PIPE, stderr=subprocess.STDOUT, text=True)
-    print(r.stdout[-1500:]); print("exit", r.returncode)
-    for line in r.stdout.splitlines():
-        if line.startswith("VIOLATION"):
-            rp = line.split("replay=")[1].split()[0]
-            d = json.load(open(rp))
-            print("kind:", d.get("kind"), "| what:", d.get("what"), "| broken:", [x.get("family") or x.get("what") for x in d.get("also_broken", d.get("all", []))][:4])
-finally:
-    subprocess.run(["git", "-C", "/repo", "checkout", "--", "."])
-    subprocess.run(["git", "-C", "/verif", "checkout", "--", "evidence"], stderr=subprocess.DEVNULL)
+"""mutest.py <Cxx> <worktree> : run the quick check of Cxx against a scratch git
+worktree of /repo (which the caller has already mutated), print the verdict.
+   create:  git -C /repo worktree add --detach /tmp/wt-foo HEAD
+   mutate:  edit files under /tmp/wt-foo  (or: git -C /tmp/wt-foo apply patch.diff)
+   run:     lib/mutest.py C07 /tmp/wt-foo
+   remove:  git -C /repo worktree remove --force /tmp/wt-foo
+/repo itself is never touched, so several mutation tests can run in parallel."""
+import subprocess, sys, json, os
+pid, wt = sys.argv[1:3]
+env = dict(os.environ, VERIF_REPO=os.path.realpath(wt), VERIF_EVIDENCE_DIR="/tmp/mutest-evidence-%d" % os.getpid())
+r = subprocess.run(["/verif/check", pid, "quick"], stdout=subprocess.PIPE, stderr=subprocess.STDOUT, text=True, env=env)
+print(r.stdout[-3000:]); print("exit", r.returncode)
+for line in r.stdout.splitlines():
+    if line.startswith("VIOLATION"):
+        rp = line.split("replay=")[1].split()[0]
+        d = json.load(open(rp))
+        print("kind:", d.get("kind"), "| what:", d.get("what"), "| broken:", [x.get("family") or x.get("theorem") or x.get("what") for x in d.get("also_broken", d.get("all", []))][:4])
+        print(json.dumps(d, default=str)[:1500])
+subprocess.run(["rm", "-rf", env["VERIF_EVIDENCE_DIR"]])
